@@ -9,30 +9,28 @@ TB = ('rustc name/type resolution and MIR construction; pinned dependency crates
 
 CLAIMS = {
     'C01': dict(
-        technique='kind-directed abstract evaluation of MIR (constant propagation over the finite SyntaxKind lattice) of every dispatcher and child-dispatch loop, per grammar child kind; truth tables for paren removal / optional parens; who-may-reorder',
-        text='Partial: decides total type-directed dispatch, that no significant child kind is dropped at any dispatch site, spelling agreement, the order/disambiguation clauses. '
-             'Quantifies over (dispatch site x grammar kind) pairs instead of inputs, including pairs no fixture contains. Does not decide the round trip. Found and repaired the in / not in chain defect.',
+        technique='kind-directed abstract evaluation of MIR (constant propagation over the finite SyntaxKind lattice) of every dispatcher and child-dispatch loop, per grammar child kind; truth tables for paren removal / optional parens and the mode they establish; who-may-reorder',
+        text='Partial: decides total type-directed dispatch, that no significant child kind is dropped at any dispatch site, spelling agreement, the order/disambiguation clauses, and that optional delimiters establish the mode their body is converted in (statement boundaries). Quantifies over (dispatch site x grammar kind) pairs instead of inputs, including pairs no fixture contains. Does not decide the round trip. Found and repaired the in / not in chain defect.',
         design_ref='DESIGN.md §2 C01'),
     'C04': dict(
-        technique='abstract evaluation of the two-child sequence <LineComment, Space+nl> at every comment-emitting site (state carried between iterations), of the list printer under the forced layout, and of the optional-delimiter helpers per mode',
-        text='Partial: decides that a line comment is always followed by a hard line break before the next token and that optional delimiters are paired under one group with the body converted in the matching mode. '
-             'Token fusion and width-dependent effects are not decided. Found and repaired F8.',
+        technique='abstract evaluation of child sequences at every comment-emitting site (state carried between iterations): <LineComment, Space+nl>, <LineComment, Space+nl, X> where the terminator is a queued item, <LineComment, END> where only part of the children is iterated; the list printer under the forced layout; shape check of the line-break text predicate; optional-delimiter helpers per mode',
+        text='Partial: decides that a line comment is always followed by a hard line break before the next token (also when later children un-queue items or the line break after the comment is among stripped edge children), that the line-break predicate is the lexer\'s, and that optional delimiters are paired under one group with the body converted in the matching mode. Token fusion and width-dependent effects are not decided. Found and repaired F8, F11, F12, F13.',
         design_ref='DESIGN.md §2 C04'),
     'C06': dict(
-        technique='kind-directed abstract evaluation per comment kind at every dispatch loop; whole-path evaluation of converters for typed-accessor bypasses; string-transformer inventory of the comment converter',
-        text='Partial: decides that every comment child reaches an emitting branch on every path, that converters which never walk their children are comment-free or guarded, that comment text is only de-indented, and the line-comment discipline. Found and repaired F4.',
+        technique='kind-directed abstract evaluation per comment kind at every dispatch loop; whole-path evaluation of converters for typed-accessor bypasses; MIR recognition of scan-guard idioms over node collections with per-kind coverage evaluation; string-transformer inventory of the comment converter',
+        text='Partial: decides that every comment child reaches an emitting branch on every path, that converters which never walk their children (or rebuild the nodes of a collection from accessors) are comment-free or guarded by a test that covers all of them, that comment text is only de-indented, and the line-comment discipline of C04. Found and repaired F4, F8, F11, F12, F13.',
         design_ref='DESIGN.md §2 C06'),
     'C07': dict(
-        technique='abstract evaluation of the conversion entries with the attribute query left unknown (both edges explored), who-may-call table for bypasses of the checked entries, leaf evaluation of the verbatim emitter',
-        text='Partial: every conversion entry that can receive a marked expression, code body or equation body consults the mark and emits the node verbatim on that edge. Whether the attribute pass marks the right node is not decided.',
+        technique='abstract evaluation of the conversion entries with the attribute query left unknown (both edges explored), who-may-call table for bypasses of the checked entries, leaf evaluation of the verbatim emitter, sequence evaluation of the marking pass from the start of a node',
+        text='Partial: every conversion entry that can receive a marked expression, code body or equation body consults the mark and emits the node verbatim on that edge; the marking pass takes a comment for the directive exactly by `contains("@typstyle off")`, marks the next node that is not a Space or `#`, only that one, and does not descend into it.',
         design_ref='DESIGN.md §2 C07'),
     'C18': dict(
         technique='abstract evaluation of every Option<document> function (no conversion before None), duplicate-conversion detection on every evaluated path, size-change analysis of the recursive call graph',
-        text='Partial: rules out the exponential try-then-fall-back re-conversion pattern and non-descending recursion structurally; the renderer\'s cost and constant factors are not decided.',
+        text='Partial: rules out the exponential try-then-fall-back re-conversion pattern (no conversion on a path whose result is not definitely Some, bool::then/then_some included) and non-descending recursion structurally; the renderer\'s cost and constant factors are not decided.',
         design_ref='DESIGN.md §2 C18'),
     'C08': dict(
-        technique='abstract evaluation of the two stages of the markup converter per child kind and on the <Text, Parbreak> sequence; dominance/provenance of the break-suppressed context; leaf-converter evaluation',
-        text='Partial: decides that no soft break or removal can happen between prose pieces, paragraph breaks keep their line-feed count, prose leaves are emitted byte for byte, mixed lines are converted break-suppressed.',
+        technique='abstract evaluation of the two stages of the markup converter per child kind; dominance/provenance of the break-suppressed context; leaf-converter evaluation; shape check of the line-feed counting predicate',
+        text='Partial: decides that no soft break or removal can happen between prose pieces, paragraph breaks keep their line-break count (counted the way the lexer cut the tokens, CR LF once), prose leaves are emitted byte for byte, mixed lines are converted break-suppressed. Found and repaired F13.',
         design_ref='DESIGN.md §2 C08'),
     'C09': dict(
         technique='abstract evaluation of the Math / MathDelimited converters per child kind incl. peeled edge spaces; context provenance; leaf evaluation of the Space converter',
@@ -43,17 +41,16 @@ CLAIMS = {
         text='Partial: literal leaves reach the document byte for byte, raw text is rebuilt child by child, multi-line inline raw is copied verbatim, and transformers downstream of rendering are inventoried (one known finding: trailing-blank stripping, which C11 demands).',
         design_ref='DESIGN.md §2 C10'),
     'C05': dict(
-        technique='guarded-by (dominating erroneous() edge), partial-operation inventory with discharge rules over MIR Assert terminators and panicking callees, loop-shape and size-change (descending recursion) analysis',
-        text='Every panic site in typstyle\'s own code reachable from a whole-document entry is an obligation discharged by a dominating kind/bound guard, a size provenance, a benign class or a '
-             'one-line axiom about parser output; refusal and fallback are decided by dominance; loops and recursive cycles are shown to make progress on the finite tree. Found and repaired F1/F2.',
+        technique='guarded-by (dominating erroneous() edge), partial-operation inventory with discharge rules over MIR Assert terminators and panicking callees incl. character-boundary provenance of str slice bounds, loop-shape and size-change (descending recursion) analysis',
+        text='Every panic site in typstyle\'s own code reachable from a whole-document entry is an obligation discharged by a dominating kind/bound guard, a size provenance, a byte-offset provenance (str slices), a benign class or a one-line axiom about parser output; refusal and fallback are decided by dominance; loops and recursive cycles are shown to make progress on the finite tree. Found and repaired F1/F2.',
         design_ref='DESIGN.md §2 C05'),
     'C13': dict(
-        technique='provenance of the caller range across calls (clamp-before-slice), dominance of the not-erroneous edge, provenance of the returned (range, text) pair, range-only partial-operation inventory',
-        text='No-panic for arbitrary ranges, refusal and range/text consistency are decided structurally on every path; the re-parse equivalence of the splice is behavioural and not decided. Found and repaired F3.',
+        technique='provenance of the caller range across calls (clamp-before-slice), dominance of the not-erroneous edge, provenance of the returned (range, text) pair, range-only partial-operation inventory; sibling cross-check of cover search and printer: abstract evaluation of both per (kind, mode, preceded-by-#) and a simulation over (kind, converter, printer mode, cover mode) from the root',
+        text='No-panic for arbitrary ranges, refusal and range/text consistency are decided structurally on every path, and the selected node is shown to be converted in the syntactic mode the whole-document formatter would use for it (or one that only adds redundant grouping parentheses). The re-parse equivalence of the splice in general (e.g. the inferred indentation of list-item bodies) is behavioural and not decided. Found and repaired F3, F10.',
         design_ref='DESIGN.md §2 C13'),
     'C19': dict(
-        technique='guarded-by conjunction on the single order-changing call, who-may-touch the item list, soundness obligations of the duplicate test, flag read-site count, clap default extraction',
-        text='Off => source order (no other reordering operation on nodes exists); on => a permutation gated on flag, no comments, no duplicate bound names; nothing else reads the flag.',
+        technique='guarded-by conjunction on the single order-changing call, coverage of the comment-free condition over every slice of the import\'s children, who-may-touch the item list, soundness obligations of the duplicate test, flag read-site count, clap default extraction',
+        text='Off => source order (no other reordering operation on nodes exists); on => a permutation gated on flag, no comment anywhere among the children of the import, no duplicate bound names; nothing else reads the flag. Found and repaired F14.',
         design_ref='DESIGN.md §2 C19'),
     'C11': dict(
         technique='provenance of every Ok payload + shape check of the post-processing loop over MIR (must-pass-through, single-exit loop)',
@@ -67,17 +64,15 @@ CLAIMS = {
         design_ref='DESIGN.md §2 C12'),
     'C14': dict(
         technique='who-may-write call-path guards (dominating switch edges on check/inplace), truth tables by CFG path enumeration, error-discipline rule',
-        text='The read-only guarantee and the exit-status algebra are finite: every path to a write or a text print is dominated by check==false, and the status '
-             'mapping is enumerated exhaustively as truth tables from the MIR. File trees and invocation histories need not be sampled.',
+        text='The read-only guarantee and the exit-status algebra are finite: every path to a write or a text print is dominated by check==false, the status mapping is enumerated exhaustively as truth tables from the MIR, a differing input constructs Changed on every path, and the error-count test cannot be skipped on a path to Ok. File trees and invocation histories need not be sampled.',
         design_ref='DESIGN.md §2 C14'),
     'C15': dict(
         technique='provenance of written content/path, guarded-by rules for change/eligibility, single-exit batch loops, error-counter discipline',
-        text='Structural argument: what is written is the library result for the option mapping, only on the changed edge, only for eligible entries; every I/O Result '
-             'in a batch loop reaches a counter guarding the Err return. Found and repaired F5/F6 (see known_findings.json).',
+        text='Structural argument: what is written is the library result for the option mapping, to the path that was read, by the one file-mutating callee, only on the changed edge, only for eligible entries (regular file by the walker\'s own file type, .typ, not hidden, root exempt); every I/O Result in a batch loop reaches a counter whose zero test every Ok return lies behind. Found and repaired F5/F6 (see known_findings.json).',
         design_ref='DESIGN.md §2 C15'),
     'C16': dict(
-        technique='provenance of the option mapping, who-may-call funnel, format_args! template constant inspection, pre-expansion AST of the wasm export',
-        text='Option plumbing, funnelling into one render entry and the byte-exact print idiom are decided on every path; clap parsing is trusted.',
+        technique='straight-line field evaluation of the option mapping, who-may-call funnel, format_args! template constant inspection, who-may-write-stdout with confinement of info-level logging, pre-expansion AST of the wasm export',
+        text='Option plumbing, funnelling into one render entry, the byte-exact print idiom and the absence of any other stdout writer in stdout-output mode are decided on every path; clap parsing is trusted.',
         design_ref='DESIGN.md §2 C16'),
     'C17': dict(
         technique='effect analysis over the resolved MIR call graph (who-may-call, no shared state, no hash-order iteration)',
